@@ -30,6 +30,10 @@ class Spec:
         return engine_b.run_world(world)
 
     def oracle(self, world, result):
+        if world.get("kind") == "group":
+            from sim import concurrent_a
+
+            return concurrent_a.oracle_group(self.id, world, result)
         if self.engine == "A":
             from sim import oracle_a
 
@@ -39,6 +43,10 @@ class Spec:
         return getattr(oracle_b, "oracle_" + self.id.lower())(world, result)
 
     def signature(self, world, result, probes, mode):
+        if world.get("kind") == "group":
+            from sim import concurrent_a
+
+            return concurrent_a.signature(world, result, probes, mode)
         if self.engine == "A":
             from sim import worlds_a
 
@@ -48,6 +56,10 @@ class Spec:
         return worlds_b.signature(self.id, world, result, probes, mode)
 
     def nontrivial(self, world, result):
+        if world.get("kind") == "group":
+            from sim import concurrent_a
+
+            return concurrent_a.nontrivial(world, result)
         if self.engine == "A":
             from sim import worlds_a
 
@@ -57,6 +69,10 @@ class Spec:
         return worlds_b.nontrivial(self.id, world, result)
 
     def shrink_candidates(self, world):
+        if world.get("kind") == "group":
+            from sim import concurrent_a
+
+            return concurrent_a.shrink_candidates(world)
         if self.engine == "A":
             from sim import shrink
 
@@ -67,6 +83,10 @@ class Spec:
 
     def fired(self, world, result, probes):
         """How often each fault kind actually fired in this run."""
+        if world.get("kind") == "group":
+            from sim import concurrent_a
+
+            return concurrent_a.fired(world, result, probes)
         if self.engine == "A":
             from sim import faults_a
 
@@ -85,6 +105,10 @@ class Spec:
         return engine_b.result_digest(result)
 
     def sample_view(self, world, result, probes, mode):
+        if world.get("kind") == "group":
+            from sim import concurrent_a
+
+            return concurrent_a.sample_view(world, result, probes, mode)
         if self.engine == "A":
             from sim import faults_a
 
@@ -93,7 +117,19 @@ class Spec:
 
         return engine_b.sample_view(world, result, probes, mode)
 
+    def prepare_for_shrink(self, world, result):
+        """World the shrinker starts from (a group gets the schedule actually taken, explicit)."""
+        if world.get("kind") == "group" and not result.get("exception"):
+            from sim import concurrent_a
+
+            return concurrent_a.with_explicit_schedule(world, result)
+        return world
+
     def logical_time(self, result):
+        if result.get("kind") == "group":
+            from sim import concurrent_a
+
+            return concurrent_a.logical_time(result)
         if self.engine == "A":
             return sum(1 for e in result["events"] if e["t"] == "LOSS")
         return int(result.get("n_loss_events", 0))
